@@ -14,8 +14,8 @@
     vmguards                                      -> "ok" | "bad <handler:expr>..." (value-dependent dereferences of vm.c without a dominating run-time test)
     umsites                                       -> "ok" | "bad <site>..."       (read sites of marsh.c whose test does not dominate the reads)
     umdepths                                      -> "ok" | "bad <path>;..."      (call paths between two MARSH_STACKCHECKs that add 0 to the depth counter)
-    ums [<hex>]                                   -> as `um` + " L=<types of the reference table> E=<envs> D=<defs>:<done flags>" (internal state)
-    ums [<hex>]                                   -> as `um` + " L=<types of the reference table> E=<envs> D=<defs>:<done flags>" (internal state)
+    ums [<hex>]                                   -> as `um` + " L=<types of the reference table> E=<envs> D=<defs>:<done flags> V=<environments_length,environments.. of each def; ';' separated>" (internal state)
+    ums [<hex>]                                   -> as `um` + " L=<types of the reference table> E=<envs> D=<defs>:<done flags> V=<environments_length,environments.. of each def; ';' separated>" (internal state)
     um [<hex>]                                    -> "acc <consumed> <type>" | "rej <class>" | "oob <site>" | "fuel"
                                                      (byte-level unmarshal model with the sites of the current source)
 -/
@@ -70,7 +70,8 @@ def runUms (bs : List Nat) : String :=
   match JanetModel.Unmarsh.Bytes.unmarshal C bs.toArray (JanetModel.Unmarsh.Bytes.fuelBound C) with
   | .ok v c =>
     s!"acc {c.pos} {typeName v} L={",".intercalate (c.st.lookup.toList.map typeName)} E={c.st.nenvs} D={c.st.defs.size}:" ++
-      String.join (c.st.defs.toList.map fun d => if d.done then "1" else "0")
+      String.join (c.st.defs.toList.map fun d => if d.done then "1" else "0") ++
+      " V=" ++ ";".intercalate (c.st.defs.toList.map fun d => toString d.envLen ++ String.join (d.envs.map fun e => "," ++ toString e))
   | .err e => "rej " ++ (reprStr e).replace "JanetModel.Unmarsh.Bytes.Err." ""
   | .oob site => s!"oob {site}"
   | .fuel => "fuel"
